@@ -3,6 +3,7 @@ package main
 // C10 A write that fails or is aborted leaves no trace.
 
 import (
+	"sort"
 	"fmt"
 	"go/ast"
 	"go/constant"
@@ -128,6 +129,10 @@ func setLoop(p *Prog, r *Report, rule string) (*FuncInfo, *Flat, *ast.RangeStmt)
 		// no iterator loop: plain analysis
 		return fi, f, nil
 	}
+	if len(f.CallSites(kContentStore)) == 0 {
+		// the loop is Set's own, the attempt is made by a helper (place.try(ctx, dir, &cFile)): spliced in
+		f = p.FlatInlExcept(fi, kContentStore, kCFStore, kCoreStore)
+	}
 	iterOK := iteratorEndsWithSentinel(p, r, rule)
 	head := f.loopHead(loop)
 	okVar := objOf(info, loop.Value)
@@ -240,13 +245,16 @@ func c10Retry(p *Prog, r *Report) {
 		}
 		// the source: the variable the content store reads from (Set's parameter, or the parameter of the helper
 		// that holds the loop)
+		// (a variable, or a field of a helper object that carries the attempt: place.content)
+		contentPlace := ""
+		if contentParam != nil {
+			contentPlace = placeKey(f, ast.NewIdent("_"), contentParam)
+		}
 		if len(s.Call.Args) == 3 {
-			if o := objOf(info, s.Call.Args[2]); o != nil {
-				contentParam = o
+			if k := placeKey(f, s.Call.Args[2], nil); k != "" {
+				contentPlace = k
 			} else {
-				// the source and the remembered size travel in the fields of a helper object (sp.content, sp.minSize)
-				// that its methods update: not a form the retry rule follows
-				r.Undecided("C10.a", kStoreSet+"#retry-stream", p.pos(s.Call), "the source of the content store is "+types.ExprString(s.Call.Args[2])+", a field of a helper object: the retry rule follows plain variables only")
+				r.Undecided("C10.a", kStoreSet+"#retry-stream", p.pos(s.Call), "the source of the content store is "+types.ExprString(s.Call.Args[2])+": not a variable or a field the retry rule can follow")
 				continue
 			}
 		}
@@ -271,8 +279,9 @@ func c10Retry(p *Prog, r *Report) {
 		}
 		// on the retry path: content is replaced by the error's Reader() and minSize by dir.Free, before the back edge
 		var setContent, setMin []int
-		var minObj types.Object
 		dirObj := objOf(info, loop.Key)
+		mins := minPlaces(f, dirObj)
+		sort.Ints(nes)
 		for _, id := range nes {
 			as, ok := f.Nodes[id].Ast.(*ast.AssignStmt)
 			if !ok || len(as.Lhs) != len(as.Rhs) {
@@ -280,14 +289,15 @@ func c10Retry(p *Prog, r *Report) {
 			}
 			// (a parallel assignment updates several of them at once)
 			for i := range as.Lhs {
-				if objOf(info, as.Lhs[i]) == contentParam && contentParam != nil {
+				if contentPlace != "" && placeKey(f, as.Lhs[i], nil) == contentPlace {
 					if c, ok := ast.Unparen(as.Rhs[i]).(*ast.CallExpr); ok && p.callIs(fi.Pkg, c, kNESReader) {
 						setContent = append(setContent, id)
 					}
 				}
-				if sel, ok := ast.Unparen(as.Rhs[i]).(*ast.SelectorExpr); ok && sel.Sel.Name == "Free" && objOf(info, sel.X) == dirObj {
+				// the remembered free space: a place that lives across iterations (a parameter binding of a
+				// spliced-in helper does not)
+				if f.Nodes[id].Synth == "" && mins.isFree(as.Rhs[i]) {
 					setMin = append(setMin, id)
-					minObj = objOf(info, as.Lhs[i])
 				}
 			}
 		}
@@ -319,18 +329,21 @@ func c10Retry(p *Prog, r *Report) {
 		backAny := st[head]["any"]
 		r.Check(!backAny, "C10.a", kStoreSet+"#other-errors-return", p.pos(s.Call), "an error other than NotEnoughSpace never continues the loop", "a generic store error continues with the next directory instead of failing the write")
 		// skip guard: order-type table over (dir.Free, minSize)
-		if minObj != nil {
-			c10SkipGuard(p, r, fi, f, loop, dirObj, minObj)
+		if len(setMin) > 0 {
+			c10SkipGuard(p, r, fi, f, loop, dirObj, mins)
 		}
 	}
 }
 
-func c10SkipGuard(p *Prog, r *Report, fi *FuncInfo, f *Flat, loop *ast.RangeStmt, dirObj, minObj types.Object) {
-	info := fi.Pkg.TypesInfo
-	// condition nodes in the loop body mentioning both dir.Free and minSize
+func c10SkipGuard(p *Prog, r *Report, fi *FuncInfo, f *Flat, loop *ast.RangeStmt, dirObj types.Object, mins *placeSet) {
+	// condition nodes of the loop body (helpers spliced in) mentioning both dir.Free and the remembered minimum
 	var guards []*GNode
 	for _, n := range f.Nodes {
-		if n.IsCond && n.Ast.Pos() >= loop.Body.Pos() && n.Ast.End() <= loop.Body.End() && usesObj(info, n.Ast, minObj) && usesObj(info, n.Ast, dirObj) {
+		inLoop := n.Ast != nil && n.Ast.Pos() >= loop.Body.Pos() && n.Ast.End() <= loop.Body.End()
+		if _, spliced := f.Inl[n.ID]; spliced {
+			inLoop = true
+		}
+		if n.IsCond && inLoop && mins.mentions(n.Ast) && mins.mentionsFree(n.Ast) {
 			guards = append(guards, n)
 		}
 	}
@@ -349,7 +362,20 @@ func c10SkipGuard(p *Prog, r *Report, fi *FuncInfo, f *Flat, loop *ast.RangeStmt
 	ok := true
 	detail := ""
 	for _, fm := range [][2]int64{{1, 2}, {2, 2}, {3, 2}, {0, 0}, {1, 0}} {
-		env := &Env{P: p, Pkg: fi.Pkg, Vars: map[types.Object]*Val{minObj: intVal(fm[1]), dirObj: {Fields: map[string]*Val{"Free": intVal(fm[0])}}}}
+		env := &Env{P: p, Pkg: fi.Pkg, Vars: map[types.Object]*Val{}}
+		free, min := fm[0], fm[1]
+		env.Hook = func(_ *Env, e ast.Expr) (*Val, bool) {
+			switch e.(type) {
+			case *ast.Ident, *ast.SelectorExpr:
+				if mins.isFree(e) {
+					return intVal(free), true
+				}
+				if mins.has(e) {
+					return intVal(min), true
+				}
+			}
+			return nil, false
+		}
 		v, err := env.Eval(g.Ast.(ast.Expr))
 		if err != nil || v.C == nil {
 			r.Undecided("C10.a", kStoreSet+"#skip-guard", p.pos(g.Ast), fmt.Sprintf("guard not evaluable: %v", err))
@@ -919,4 +945,114 @@ func c12SetErrorThroughRunner(p *Prog, r *Report, rule, k string, fi *FuncInfo, 
 	}
 	r.Check(ok1 && ok2, rule, k+"#set-error", p.pos(sites[0].Call), "the error of Set is returned by the job with its class and delivered to SetError by "+pr.runner.Key,
 		"the error of Set does not reach the writer: "+d1+" "+d2)
+}
+
+// placeSet: the places that hold the free space of the directory whose attempt failed last ("minSize"): local
+// variables and fields of a helper object (place.floor), named by object or by canonical access path, found by
+// following dir.Free through assignments of the (helper-spliced) graph.
+type placeSet struct {
+	f    *Flat
+	dir  types.Object
+	keys map[string]bool
+}
+
+// placeKey names an assignable place: a variable by identity, a field by its canonical access path.
+func placeKey(f *Flat, e ast.Expr, o types.Object) string {
+	info := f.Pkg.TypesInfo
+	if o == nil {
+		switch x := ast.Unparen(e).(type) {
+		case *ast.Ident:
+			o = objOf(info, x)
+		case *ast.SelectorExpr:
+			if p := f.CanonPath(x); p != "" {
+				return "path:" + p
+			}
+			return ""
+		default:
+			return ""
+		}
+	}
+	if o == nil {
+		return ""
+	}
+	if c := f.CanonObj(o); c != nil {
+		o = c
+	}
+	return "obj:" + objID(o)
+}
+
+// isFree: the expression is the Free field of the directory of the iteration (seen through parameter bindings).
+func (ps *placeSet) isFree(e ast.Expr) bool {
+	info := ps.f.Pkg.TypesInfo
+	switch x := ast.Unparen(e).(type) {
+	case *ast.SelectorExpr:
+		if x.Sel.Name != "Free" {
+			return false
+		}
+		if o := objOf(info, x.X); o != nil {
+			return o == ps.dir || ps.f.CanonObj(o) == ps.dir
+		}
+	case *ast.Ident:
+		// a parameter bound to dir.Free
+		if o := objOf(info, x); o != nil && ps.f.Alias != nil {
+			if a, ok := ps.f.Alias[o]; ok && a != nil && ast.Unparen(a) != ast.Expr(x) {
+				return ps.isFree(a)
+			}
+		}
+	}
+	return false
+}
+
+func (ps *placeSet) has(e ast.Expr) bool {
+	k := placeKey(ps.f, e, nil)
+	return k != "" && ps.keys[k]
+}
+
+func (ps *placeSet) mentions(n ast.Node) bool {
+	found := false
+	ast.Inspect(n, func(x ast.Node) bool {
+		if e, ok := x.(ast.Expr); ok {
+			switch e.(type) {
+			case *ast.Ident, *ast.SelectorExpr:
+				if ps.has(e) {
+					found = true
+				}
+			}
+		}
+		return !found
+	})
+	return found
+}
+
+func (ps *placeSet) mentionsFree(n ast.Node) bool {
+	found := false
+	ast.Inspect(n, func(x ast.Node) bool {
+		if e, ok := x.(ast.Expr); ok && ps.isFree(e) {
+			found = true
+		}
+		return !found
+	})
+	return found
+}
+
+func minPlaces(f *Flat, dir types.Object) *placeSet {
+	ps := &placeSet{f: f, dir: dir, keys: map[string]bool{}}
+	for changed := true; changed; {
+		changed = false
+		for _, n := range f.Nodes {
+			as, ok := n.Ast.(*ast.AssignStmt)
+			if !ok || len(as.Lhs) != len(as.Rhs) || n.Synth != "" {
+				continue
+			}
+			for i, rhs := range as.Rhs {
+				if ps.isFree(rhs) || ps.has(rhs) {
+					if k := placeKey(f, as.Lhs[i], nil); k != "" && !ps.keys[k] {
+						ps.keys[k] = true
+						changed = true
+					}
+				}
+			}
+		}
+	}
+	return ps
 }
